@@ -275,7 +275,10 @@ pub fn run<W: Write>(opts: &Opts, out: &mut W) {
             };
             s.push_zeros(present);
         }
-        let cfg = rand_cfg(&mut r);
+        let mut cfg = rand_cfg(&mut r);
+        // a giant `moov` that is really present would be read in full (and by the interpreted model, byte by byte):
+        // keep the limit at 1 MiB here; what large reads cost is C10's subject
+        cfg.max = cfg.max.min(1 << 20);
         c.mp4(&format!("giant-{k}"), "giant", &s, &cfg);
     }
 
